@@ -33,7 +33,7 @@ UnknownQuota(q)    == q.rule \in STVRules \cup {"Alaska"} /\ q.quota \notin {"dr
 (* generators / helpers: the harness builds the arguments that violate exactly the named precondition *)
 RefusedGeneratorRequests == {"props_sum_above", "props_sum_below", "props_sum_gross", "cohesion_sum_above", "cohesion_sum_gross",
                              "names_props_intervals", "names_props_cohesion", "names_intervals_cohesion",
-                             "no_candidates", "intervals_overlap", "combine_props_sum", "point_sum", "duplicate_candidates_adjacent",
+                             "no_candidates", "intervals_overlap", "intervals_overlap_zero_support", "combine_props_sum", "point_sum", "duplicate_candidates_adjacent",
                              "duplicate_candidates_apart", "from_params_props_sum", "from_params_names"}
 AcceptedGeneratorRequests == {"", "sum_within_rounding", "cohesion_within_rounding", "combine_within_rounding"}
 GeneratorViolation(q) == q.rule = "generator" /\ q.gen \in RefusedGeneratorRequests
